@@ -403,14 +403,14 @@ func init() {
 					units = append(units, Unit{"VerifC07", []string{"(> " + src + " i2)", "hist", "", "v", "0000,1111"}})
 				}
 				units = append(units, Unit{"VerifC07", []string{"(> (+ i0 i1 i2 i3 i4 i5 i6 i7 i8 i9 i10 i11 i12 i13 i14 i15 i16 i17) i18)", "foot", "event", "v", c}})
-			// long lists (the hashing path of overlap / in)
-			var la, lb []string
-			for k := 0; k < 60; k++ {
-				la = append(la, itoa2(k))
-				lb = append(lb, itoa2(100+k))
-			}
-			long := "(and (> i0 0) (overlap (" + strings.Join(la, " ") + ") (" + strings.Join(lb, " ") + ")))"
-			units = append(units, Unit{"VerifC07", []string{long, "foot", "", "v", "0000,1111"}}, Unit{"VerifC07", []string{"(or b0 " + long + ")", "foot", "event", "v", "0000"}})
+				// long lists (the hashing path of overlap / in)
+				var la, lb []string
+				for k := 0; k < 60; k++ {
+					la = append(la, itoa2(k))
+					lb = append(lb, itoa2(100+k))
+				}
+				long := "(and (> i0 0) (overlap (" + strings.Join(la, " ") + ") (" + strings.Join(lb, " ") + ")))"
+				units = append(units, Unit{"VerifC07", []string{long, "foot", "", "v", "0000,1111"}}, Unit{"VerifC07", []string{"(or b0 " + long + ")", "foot", "event", "v", "0000"}})
 				for _, src := range []string{"(in i0 (1 2 3 4 5 6 7 8 9 10 11 12))", "(and b0 (in i0 (1 2 3 4 5 6 7 8 9)) (in i1 (1 2)))", "(overlap (1 2 3 4 5 6 7 8 9 10) (11 12 13 14 15 16 17 18 19 20 1))",
 					"(or (in i0 (3 4 5 6 7 8 9 10 11)) (= i1 (+ i0 1)))", "(if (in i0 (1 2 3 4 5 6 7 8 9)) (+ i1 1) (- i1 1))"} {
 					units = append(units, Unit{"VerifC07", []string{src, "foot", "", "v", c}})
